@@ -248,4 +248,332 @@ theorem recv_conn_ca (tl : Bool) (now : Nat) (draws : List Nat) (s : Timeout) (a
     simp [P6.recv, feed, Conn.hint, State.token?, wireRead, strip, Packet.tokenAck?, feedBody, sendControl,
       controlPacket, hem, Online.new]
 
+theorem recv_pend_connect' (tl : Bool) (now : Nat) (draws : List Nat) (s : Timeout) (alt : Alt) (tb : Option Nat)
+    (htb : tb.isSome = !tl) :
+    P6.recv tl now draws ⟨.pending tb, s⟩ (.control 0 (some TOKEN_NONE) .connect) alt =
+      .ok { conn := ⟨.pending tb, s⟩ } := by
+  cases tl <;> cases tb <;> simp at htb
+  · rename_i v
+    by_cases hv : v = TOKEN_NONE <;>
+      simp [P6.recv, feed, Conn.hint, State.token?, wireRead, hasToken, Packet.tokenAck?, feedBody, hv]
+  · simp [P6.recv, feed, Conn.hint, State.token?, wireRead, strip, hasToken, Packet.tokenAck?, feedBody]
+
+/-! ## the round that takes the connector online -/
+
+theorem recv_onl_ca (tl : Bool) (now : Nat) (draws : List Nat) (s : Timeout) (alt : Alt) (tb : Option Nat)
+    (htb : tl = true → tb = none) :
+    P6.recv tl now draws ⟨.online tb .new, s⟩ (.control 0 tb .connectAccept) alt =
+      .ok { conn := ⟨.online tb .new, s⟩ } := by
+  have hfa : Online.new.feedAck 0 = .ok .new := new_feedAck (by rw [seqMod_eq]; omega)
+  unfold P6.recv
+  rw [recv_online6 tl now draws tb .new s (.control 0 tb .connectAccept) alt tb 0
+    (by intro r a t h; cases h) (by intro d h; cases h)
+    (by cases tl <;> simp_all [strip, Packet.tokenAck?])
+    rfl (by cases tl <;> simp_all [strip, hasToken]) .new hfa]
+  cases tl <;> simp [strip, feedBody]
+
+/-- a connecting side `a`, an acceptor `b` that is unconnected or pending: one round of the fair suffix
+takes `a` online (it is told `Ready`), `b` is pending with the same token, `a`'s `Accept` is still to be
+delivered -/
+theorem ready_round6 (tl : Bool) (draws : List Nat) (alt : (proto6 tl).Alt) (nt : Nat) (hnt : tokenRandom draws = some nt)
+    (w : World (proto6 tl)) (hW : WInv (proto6 tl) core Conn6.cfg w) (hT : TInv Timed w)
+    (sa : Timeout) (ha : w.a.conn = ⟨.connecting, sa⟩)
+    (hb : (∃ sb, w.b.conn = ⟨.unconnected, sb⟩) ∨
+      (∃ tb sb, w.b.conn = ⟨.pending tb, sb⟩ ∧ tb.isSome = !tl)) :
+    ∃ (s' : FairState (proto6 tl)) (tb : Option Nat) (La : List (DgH × Nat)),
+      fairRoundT draws alt (FairState.start w) = some s' ∧ OnlineFH (gface6 tl) tb tb s' La ∧
+      Event.ready ∈ s'.w.a.events ∧ ∃ o s, s'.w.a.conn = ⟨.online tb o, s⟩ := by
+  obtain ⟨T1, hT1⟩ : ∃ T1, T1 = w.now + resendUs := ⟨_, rfl⟩
+  obtain ⟨T2, hT2⟩ : ∃ T2, T2 = T1 + sendUs := ⟨_, rfl⟩
+  have hsa : SendDue w.now sa := by have := hT.1; rw [ha] at this; exact this
+  have t1 : sa.triggered T1 = true := by
+    apply hsa.triggered; rw [hT1, sendUs_val, resendUs_val]; omega
+  have t2 : (Timeout.after T1 sendUs).triggered T2 = true := by
+    simp [Timeout.after, Timeout.triggered, hT2]
+  have ea1 : (proto6 tl).call T1 [] w.a.conn .tick =
+      .ok (tickRet (⟨.connecting, Timeout.after T1 sendUs⟩ : Conn) [.control 0 (some TOKEN_NONE) .connect]) := by
+    rw [ha]; exact tick_connecting T1 sa t1
+  have ea2 : (proto6 tl).call T2 [] (⟨.connecting, Timeout.after T1 sendUs⟩ : Conn) .tick =
+      .ok (tickRet (⟨.connecting, Timeout.after T2 sendUs⟩ : Conn) [.control 0 (some TOKEN_NONE) .connect]) :=
+    tick_connecting T2 _ t2
+  have hwinv : AInv Conn6.cfg (absEnd (proto6 tl) core w.a) (absEnd (proto6 tl) core w.b) := hW
+  have hwin_ba : w.b.nAbs ≤ w.a.dAbs + 512 := hwinv.2.win
+  have hwin_ab : w.a.nAbs ≤ w.b.dAbs + 512 := hwinv.1.win
+  have hne := tokenRandom_ne hnt
+  rcases hb with ⟨sb, hbU⟩ | ⟨tb, sb, hbP, htb⟩
+  · -- the acceptor has not heard of the connector yet
+    obtain ⟨sb1, eb1'⟩ := tick_unconnected T1 sb
+    obtain ⟨sb2, eb2'⟩ := tick_unconnected T2 sb1
+    have eb1 : (proto6 tl).call T1 [] w.b.conn .tick = .ok (tickRet (⟨.unconnected, sb1⟩ : Conn) []) := by
+      rw [hbU]; exact eb1'
+    have eb2 : (proto6 tl).call T2 [] (⟨.unconnected, sb1⟩ : Conn) .tick = .ok (tickRet (⟨.unconnected, sb2⟩ : Conn) []) := eb2'
+    have hrun := run_tickMoves' w T1 T2 hT1 hT2 _ _ _ _ _ _ _ _ ea1 eb1 ea2 eb2
+    generalize hw1 : ({ a := (w.a.book (tickRet (⟨.connecting, Timeout.after T1 sendUs⟩ : Conn) [.control 0 (some TOKEN_NONE) .connect]) []).book
+                            (tickRet (⟨.connecting, Timeout.after T2 sendUs⟩ : Conn) [.control 0 (some TOKEN_NONE) .connect]) []
+                        b := (w.b.book (tickRet (⟨.unconnected, sb1⟩ : Conn) []) []).book (tickRet (⟨.unconnected, sb2⟩ : Conn) []) []
+                        now := T2 } : World (proto6 tl)) = w1 at hrun
+    have hW1 : WInv (proto6 tl) core Conn6.cfg w1 := run_inv (sim6 tl) tickMoves w w1 hW (admissible_ticks hrun) hrun
+    have hT1' : TInv Timed w1 := run_loct (loct6 tl) tickMoves w w1 hT hrun
+    have w1now : w1.now = T2 := by rw [← hw1]
+    have a1conn : w1.a.conn = ⟨.connecting, Timeout.after T2 sendUs⟩ := by rw [← hw1]; rfl
+    have b1conn : w1.b.conn = ⟨.unconnected, sb2⟩ := by rw [← hw1]; rfl
+    have a1out : w1.a.out = w.a.out ++ [⟨.control 0 (some TOKEN_NONE) .connect, w.a.nAbs, w.a.dAbs⟩,
+        ⟨.control 0 (some TOKEN_NONE) .connect, w.a.nAbs, w.a.dAbs⟩] := by
+      rw [← hw1]; simp [End.book, tickRet, End.nAbs, End.dAbs, End.submittedVital, End.deliveredVital]; rfl
+    have b1out : w1.b.out = w.b.out := by rw [← hw1]; simp [End.book, tickRet]
+    have a1sub : w1.a.submitted = w.a.submitted := by rw [← hw1]; simp [End.book, tickRet]
+    have b1sub : w1.b.submitted = w.b.submitted := by rw [← hw1]; simp [End.book, tickRet]
+    have a1ev : w1.a.events = w.a.events := by rw [← hw1]; simp [End.book, tickRet]
+    have b1ev : w1.b.events = w.b.events := by rw [← hw1]; simp [End.book, tickRet]
+    have nAa := nAbs_of_submitted a1sub
+    have nAb := nAbs_of_submitted b1sub
+    have dAa := dAbs_of_events a1ev
+    have dAb := dAbs_of_events b1ev
+    -- block 1: the two Connects reach b
+    have hr1 := recv_unc_connect tl w1.now draws sb2 alt nt hnt
+    have hr2 := recv_pend_connect tl w1.now draws (Timeout.after w1.now sendUs) alt nt hne
+    generalize hb2 : ((w1.b.book { conn := (⟨.pending (tokB tl nt), Timeout.after w1.now sendUs⟩ : Conn),
+                                   sent := [.control 0 (tokB tl nt) .connectAccept] } []).book
+                        { conn := (⟨.pending (tokB tl nt), Timeout.after w1.now sendUs⟩ : Conn) } [] : End (proto6 tl)) = b2
+    have hrecvB : recvEndsD w1.now draws alt w1.b
+        ([(⟨.control 0 (some TOKEN_NONE) .connect, w.a.nAbs, w.a.dAbs⟩ : Sent (proto6 tl).Packet),
+          ⟨.control 0 (some TOKEN_NONE) .connect, w.a.nAbs, w.a.dAbs⟩].map (·.pkt)) = some b2 := by
+      simp only [List.map_cons, List.map_nil, recvEndsD, recvEndD, b1conn]
+      have : (proto6 tl).recv w1.now draws (⟨.unconnected, sb2⟩ : Conn) (.control 0 (some TOKEN_NONE) .connect) alt = _ := hr1
+      rw [this]
+      simp only [End.book]
+      have h2' : (proto6 tl).recv w1.now draws (⟨.pending (tokB tl nt), Timeout.after w1.now sendUs⟩ : Conn)
+          (.control 0 (some TOKEN_NONE) .connect) alt = _ := hr2
+      rw [h2', ← hb2]
+      rfl
+    have hblk1 := blockAny (sim6 tl) (loct6 tl) (now := w1.now) (draws := draws) alt w1.a
+      [(⟨.control 0 (some TOKEN_NONE) .connect, w.a.nAbs, w.a.dAbs⟩ : Sent (proto6 tl).Packet),
+        ⟨.control 0 (some TOKEN_NONE) .connect, w.a.nAbs, w.a.dAbs⟩] w1.b b2
+      (by
+        intro sn hsn
+        simp only [List.mem_cons, List.not_mem_nil, or_false, or_self] at hsn
+        subst hsn
+        exact ⟨by rw [a1out]; simp, nAa.symm, by rw [nAb]; exact hwin_ba⟩)
+      hW1.symm hT1'.2 hrecvB
+    obtain ⟨hA2, hS2, b2sub, b2d⟩ := hblk1
+    have hrun1 : run w1 (deliverRangeD .b (FairState.start w).ca w1.a.out.length draws alt) = some (w1.set .b b2) := by
+      have := run_deliverRangeG (P := proto6 tl) .b draws alt
+        [(⟨.control 0 (some TOKEN_NONE) .connect, w.a.nAbs, w.a.dAbs⟩ : Sent (proto6 tl).Packet),
+          ⟨.control 0 (some TOKEN_NONE) .connect, w.a.nAbs, w.a.dAbs⟩] w.a.out [] w1
+        (by simp only [Side.other, World.get]; rw [a1out]; simp)
+      simp only [deliverRangeD, FairState.start]
+      have hlen : w1.a.out.length - w.a.out.length = 2 := by rw [a1out]; simp
+      rw [hlen]
+      simp only [List.length_cons, List.length_nil] at this
+      rw [this]
+      simp only [World.get]
+      rw [hrecvB]; rfl
+    have b2out : b2.out = w.b.out ++ [⟨.control 0 (tokB tl nt) .connectAccept, w.b.nAbs, w.b.dAbs⟩] := by
+      rw [← hb2]
+      simp [End.book, b1out, End.nAbs, End.dAbs, End.submittedVital, End.deliveredVital, b1sub, b1ev]
+      exact ⟨_, rfl, rfl⟩
+    have b2conn : b2.conn = ⟨.pending (tokB tl nt), Timeout.after w1.now sendUs⟩ := by rw [← hb2]; rfl
+    have b2ev : b2.events = w.b.events := by rw [← hb2]; simp [End.book, b1ev]
+    -- block 2: b's ConnectAccept reaches a
+    have hr3 := recv_conn_ca tl w1.now draws (Timeout.after T2 sendUs) alt (tokB tl nt)
+      (by intro h; simp [tokB, h])
+    generalize ha2 : (w1.a.book { conn := (⟨.online (tokB tl nt) .new, Timeout.after T2 sendUs⟩ : Conn),
+                                  sent := [.control 0 (tokB tl nt) .accept], events := [.ready] } [] : End (proto6 tl)) = a2
+    have hrecvA : recvEndsD w1.now draws alt w1.a
+        ([(⟨.control 0 (tokB tl nt) .connectAccept, w.b.nAbs, w.b.dAbs⟩ : Sent (proto6 tl).Packet)].map (·.pkt)) = some a2 := by
+      simp only [List.map_cons, List.map_nil, recvEndsD, recvEndD, a1conn]
+      have : (proto6 tl).recv w1.now draws (⟨.connecting, Timeout.after T2 sendUs⟩ : Conn)
+          (.control 0 (tokB tl nt) .connectAccept) alt = _ := hr3
+      rw [this]; exact congrArg some ha2
+    have hblk2 := blockAny (sim6 tl) (loct6 tl) (now := w1.now) (draws := draws) alt b2
+      [(⟨.control 0 (tokB tl nt) .connectAccept, w.b.nAbs, w.b.dAbs⟩ : Sent (proto6 tl).Packet)] w1.a a2
+      (by
+        intro sn hsn
+        simp only [List.mem_cons, List.not_mem_nil, or_false] at hsn
+        subst hsn
+        refine ⟨by rw [b2out]; simp, ?_, by rw [nAa]; exact hwin_ab⟩
+        simp [End.nAbs, End.submittedVital, b2sub, b1sub])
+      hA2.symm hT1'.1 hrecvA
+    obtain ⟨hA3, hS3, a2sub, a2d⟩ := hblk2
+    have hrun2 : run (w1.set .b b2) (deliverRangeD .a (FairState.start w).cb (w1.set .b b2).b.out.length draws alt) =
+        some ((w1.set .b b2).set .a a2) := by
+      have := run_deliverRangeG (P := proto6 tl) .a draws alt
+        [(⟨.control 0 (tokB tl nt) .connectAccept, w.b.nAbs, w.b.dAbs⟩ : Sent (proto6 tl).Packet)] w.b.out [] (w1.set .b b2)
+        (by simp only [Side.other, World.get, World.set]; rw [b2out]; simp)
+      simp only [deliverRangeD, FairState.start]
+      have hlen : (w1.set .b b2).b.out.length - w.b.out.length = 1 := by
+        simp only [World.set]; rw [b2out]; simp
+      rw [hlen]
+      simp only [List.length_cons, List.length_nil] at this
+      rw [this]
+      simp only [World.get, World.set]
+      rw [hrecvA]; rfl
+    have a2conn : a2.conn = ⟨.online (tokB tl nt) .new, Timeout.after T2 sendUs⟩ := by rw [← ha2]; rfl
+    have a2out : a2.out = w1.a.out ++ [⟨.control 0 (tokB tl nt) .accept, w.a.nAbs, w.a.dAbs⟩] := by
+      rw [← ha2]; simp [End.book, nAa, dAa]
+      exact ⟨_, rfl, rfl⟩
+    have a2ev : a2.events = w.a.events ++ [.ready] := by rw [← ha2]; simp [End.book, a1ev]
+    refine ⟨⟨(w1.set .b b2).set .a a2, w1.a.out.length, b2.out.length⟩, tokB tl nt,
+      [(.ctl 1 0, w.a.dAbs)], ?_, ?_, ?_, ⟨.new, _, a2conn⟩⟩
+    · simp only [fairRoundT, FairState.start] at hrun1 hrun2 ⊢
+      simp only [hrun, hrun1, hrun2]
+      rfl
+    · refine ⟨⟨hA3, ⟨hS3, hS2⟩, ⟨.new, Or.inl ⟨_, a2conn⟩⟩, ⟨.new, Or.inr ⟨rfl, _, b2conn⟩⟩,
+        ⟨rfl, by intro h; simp [tokB, h]⟩, ⟨rfl, by intro h; simp [tokB, h]⟩⟩, rfl, ⟨w1.a.out, ?_, rfl⟩, ?_⟩
+      · show a2.out = _
+        have : a2.nAbs = w.a.nAbs := by simp [End.nAbs, End.submittedVital, a2sub, a1sub]
+        rw [a2out]
+        simp [World.set, this, gface6, pktH, kindOf]
+      · intro x hx
+        simp only [List.mem_cons, List.not_mem_nil, or_false] at hx
+        subst hx
+        show b2.nAbs ≤ w.a.dAbs + 512
+        have : b2.nAbs = w.b.nAbs := by simp [End.nAbs, End.submittedVital, b2sub, b1sub]
+        rw [this]; exact hwin_ba
+    · show Event.ready ∈ a2.events
+      rw [a2ev]; simp
+  · -- the acceptor is pending: it repeats its ConnectAccept
+    have htb' : tl = true → tb = none := by
+      intro h; subst h; cases tb <;> simp at htb ⊢
+    have hsb : SendDue w.now sb := by have := hT.2; rw [hbP] at this; exact this
+    have u1 : sb.triggered T1 = true := by
+      apply hsb.triggered; rw [hT1, sendUs_val, resendUs_val]; omega
+    have eb1 : (proto6 tl).call T1 [] w.b.conn .tick =
+        .ok (tickRet (⟨.pending tb, Timeout.after T1 sendUs⟩ : Conn) [.control 0 tb .connectAccept]) := by
+      rw [hbP]; exact tick_pending T1 tb sb u1
+    have eb2 : (proto6 tl).call T2 [] (⟨.pending tb, Timeout.after T1 sendUs⟩ : Conn) .tick =
+        .ok (tickRet (⟨.pending tb, Timeout.after T2 sendUs⟩ : Conn) [.control 0 tb .connectAccept]) :=
+      tick_pending T2 tb _ t2
+    have hrun := run_tickMoves' w T1 T2 hT1 hT2 _ _ _ _ _ _ _ _ ea1 eb1 ea2 eb2
+    generalize hw1 : ({ a := (w.a.book (tickRet (⟨.connecting, Timeout.after T1 sendUs⟩ : Conn) [.control 0 (some TOKEN_NONE) .connect]) []).book
+                            (tickRet (⟨.connecting, Timeout.after T2 sendUs⟩ : Conn) [.control 0 (some TOKEN_NONE) .connect]) []
+                        b := (w.b.book (tickRet (⟨.pending tb, Timeout.after T1 sendUs⟩ : Conn) [.control 0 tb .connectAccept]) []).book
+                            (tickRet (⟨.pending tb, Timeout.after T2 sendUs⟩ : Conn) [.control 0 tb .connectAccept]) []
+                        now := T2 } : World (proto6 tl)) = w1 at hrun
+    have hW1 : WInv (proto6 tl) core Conn6.cfg w1 := run_inv (sim6 tl) tickMoves w w1 hW (admissible_ticks hrun) hrun
+    have hT1' : TInv Timed w1 := run_loct (loct6 tl) tickMoves w w1 hT hrun
+    have w1now : w1.now = T2 := by rw [← hw1]
+    have a1conn : w1.a.conn = ⟨.connecting, Timeout.after T2 sendUs⟩ := by rw [← hw1]; rfl
+    have b1conn : w1.b.conn = ⟨.pending tb, Timeout.after T2 sendUs⟩ := by rw [← hw1]; rfl
+    have a1out : w1.a.out = w.a.out ++ [⟨.control 0 (some TOKEN_NONE) .connect, w.a.nAbs, w.a.dAbs⟩,
+        ⟨.control 0 (some TOKEN_NONE) .connect, w.a.nAbs, w.a.dAbs⟩] := by
+      rw [← hw1]; simp [End.book, tickRet, End.nAbs, End.dAbs, End.submittedVital, End.deliveredVital]; rfl
+    have b1out : w1.b.out = w.b.out ++ [⟨.control 0 tb .connectAccept, w.b.nAbs, w.b.dAbs⟩,
+        ⟨.control 0 tb .connectAccept, w.b.nAbs, w.b.dAbs⟩] := by
+      rw [← hw1]; simp [End.book, tickRet, End.nAbs, End.dAbs, End.submittedVital, End.deliveredVital]; rfl
+    have a1sub : w1.a.submitted = w.a.submitted := by rw [← hw1]; simp [End.book, tickRet]
+    have b1sub : w1.b.submitted = w.b.submitted := by rw [← hw1]; simp [End.book, tickRet]
+    have a1ev : w1.a.events = w.a.events := by rw [← hw1]; simp [End.book, tickRet]
+    have b1ev : w1.b.events = w.b.events := by rw [← hw1]; simp [End.book, tickRet]
+    have nAa := nAbs_of_submitted a1sub
+    have nAb := nAbs_of_submitted b1sub
+    have dAa := dAbs_of_events a1ev
+    have dAb := dAbs_of_events b1ev
+    -- block 1: the two Connects reach b and are ignored
+    have hr1 := recv_pend_connect' tl w1.now draws (Timeout.after T2 sendUs) alt tb htb
+    generalize hb2 : ((w1.b.book { conn := (⟨.pending tb, Timeout.after T2 sendUs⟩ : Conn) } []).book
+                        { conn := (⟨.pending tb, Timeout.after T2 sendUs⟩ : Conn) } [] : End (proto6 tl)) = b2
+    have hrecvB : recvEndsD w1.now draws alt w1.b
+        ([(⟨.control 0 (some TOKEN_NONE) .connect, w.a.nAbs, w.a.dAbs⟩ : Sent (proto6 tl).Packet),
+          ⟨.control 0 (some TOKEN_NONE) .connect, w.a.nAbs, w.a.dAbs⟩].map (·.pkt)) = some b2 := by
+      simp only [List.map_cons, List.map_nil, recvEndsD, recvEndD, b1conn]
+      have : (proto6 tl).recv w1.now draws (⟨.pending tb, Timeout.after T2 sendUs⟩ : Conn) (.control 0 (some TOKEN_NONE) .connect) alt = _ := hr1
+      rw [this]
+      simp only [End.book]
+      rw [this, ← hb2]
+      rfl
+    have hblk1 := blockAny (sim6 tl) (loct6 tl) (now := w1.now) (draws := draws) alt w1.a
+      [(⟨.control 0 (some TOKEN_NONE) .connect, w.a.nAbs, w.a.dAbs⟩ : Sent (proto6 tl).Packet),
+        ⟨.control 0 (some TOKEN_NONE) .connect, w.a.nAbs, w.a.dAbs⟩] w1.b b2
+      (by
+        intro sn hsn
+        simp only [List.mem_cons, List.not_mem_nil, or_false, or_self] at hsn
+        subst hsn
+        exact ⟨by rw [a1out]; simp, nAa.symm, by rw [nAb]; exact hwin_ba⟩)
+      hW1.symm hT1'.2 hrecvB
+    obtain ⟨hA2, hS2, b2sub, b2d⟩ := hblk1
+    have hrun1 : run w1 (deliverRangeD .b (FairState.start w).ca w1.a.out.length draws alt) = some (w1.set .b b2) := by
+      have := run_deliverRangeG (P := proto6 tl) .b draws alt
+        [(⟨.control 0 (some TOKEN_NONE) .connect, w.a.nAbs, w.a.dAbs⟩ : Sent (proto6 tl).Packet),
+          ⟨.control 0 (some TOKEN_NONE) .connect, w.a.nAbs, w.a.dAbs⟩] w.a.out [] w1
+        (by simp only [Side.other, World.get]; rw [a1out]; simp)
+      simp only [deliverRangeD, FairState.start]
+      have hlen : w1.a.out.length - w.a.out.length = 2 := by rw [a1out]; simp
+      rw [hlen]
+      simp only [List.length_cons, List.length_nil] at this
+      rw [this]
+      simp only [World.get]
+      rw [hrecvB]; rfl
+    have b2out : b2.out = w1.b.out := by rw [← hb2]; simp [End.book]
+    have b2conn : b2.conn = ⟨.pending tb, Timeout.after T2 sendUs⟩ := by rw [← hb2]; rfl
+    -- block 2: b's two ConnectAccepts reach a
+    have hr3 := recv_conn_ca tl w1.now draws (Timeout.after T2 sendUs) alt tb htb'
+    have hr4 := recv_onl_ca tl w1.now draws (Timeout.after T2 sendUs) alt tb htb'
+    generalize ha2 : (End.book (End.book w1.a
+        ({ conn := (⟨.online tb .new, Timeout.after T2 sendUs⟩ : Conn), sent := [.control 0 tb .accept], events := [.ready] } :
+          Ret (proto6 tl).Conn (proto6 tl).Packet) [])
+        ({ conn := (⟨.online tb .new, Timeout.after T2 sendUs⟩ : Conn) } : Ret (proto6 tl).Conn (proto6 tl).Packet) [] :
+          End (proto6 tl)) = a2
+    have hrecvA : recvEndsD w1.now draws alt w1.a
+        ([(⟨.control 0 tb .connectAccept, w.b.nAbs, w.b.dAbs⟩ : Sent (proto6 tl).Packet),
+          ⟨.control 0 tb .connectAccept, w.b.nAbs, w.b.dAbs⟩].map (·.pkt)) = some a2 := by
+      simp only [List.map_cons, List.map_nil, recvEndsD, recvEndD, a1conn]
+      have : (proto6 tl).recv w1.now draws (⟨.connecting, Timeout.after T2 sendUs⟩ : Conn)
+          (.control 0 tb .connectAccept) alt = _ := hr3
+      rw [this]
+      simp only [End.book]
+      have h4 : (proto6 tl).recv w1.now draws (⟨.online tb .new, Timeout.after T2 sendUs⟩ : Conn)
+          (.control 0 tb .connectAccept) alt = _ := hr4
+      rw [h4, ← ha2]
+      rfl
+    have hblk2 := blockAny (sim6 tl) (loct6 tl) (now := w1.now) (draws := draws) alt b2
+      [(⟨.control 0 tb .connectAccept, w.b.nAbs, w.b.dAbs⟩ : Sent (proto6 tl).Packet),
+        ⟨.control 0 tb .connectAccept, w.b.nAbs, w.b.dAbs⟩] w1.a a2
+      (by
+        intro sn hsn
+        simp only [List.mem_cons, List.not_mem_nil, or_false, or_self] at hsn
+        subst hsn
+        refine ⟨by rw [b2out, b1out]; simp, ?_, by rw [nAa]; exact hwin_ab⟩
+        simp [End.nAbs, End.submittedVital, b2sub, b1sub])
+      hA2.symm hT1'.1 hrecvA
+    obtain ⟨hA3, hS3, a2sub, a2d⟩ := hblk2
+    have hrun2 : run (w1.set .b b2) (deliverRangeD .a (FairState.start w).cb (w1.set .b b2).b.out.length draws alt) =
+        some ((w1.set .b b2).set .a a2) := by
+      have := run_deliverRangeG (P := proto6 tl) .a draws alt
+        [(⟨.control 0 tb .connectAccept, w.b.nAbs, w.b.dAbs⟩ : Sent (proto6 tl).Packet),
+          ⟨.control 0 tb .connectAccept, w.b.nAbs, w.b.dAbs⟩] w.b.out [] (w1.set .b b2)
+        (by simp only [Side.other, World.get, World.set]; rw [b2out, b1out]; simp)
+      simp only [deliverRangeD, FairState.start]
+      have hlen : (w1.set .b b2).b.out.length - w.b.out.length = 2 := by
+        simp only [World.set]; rw [b2out, b1out]; simp
+      rw [hlen]
+      simp only [List.length_cons, List.length_nil] at this
+      rw [this]
+      simp only [World.get, World.set]
+      rw [hrecvA]; rfl
+    have a2conn : a2.conn = ⟨.online tb .new, Timeout.after T2 sendUs⟩ := by rw [← ha2]; rfl
+    have a2out : a2.out = w1.a.out ++ [⟨.control 0 tb .accept, w.a.nAbs, w.a.dAbs⟩] := by
+      rw [← ha2]; simp [End.book, nAa, dAa]
+      exact ⟨_, rfl, rfl⟩
+    have a2ev : a2.events = w.a.events ++ [.ready] := by rw [← ha2]; simp [End.book, a1ev]
+    refine ⟨⟨(w1.set .b b2).set .a a2, w1.a.out.length, b2.out.length⟩, tb,
+      [(.ctl 1 0, w.a.dAbs)], ?_, ?_, ?_, ⟨.new, _, a2conn⟩⟩
+    · simp only [fairRoundT, FairState.start] at hrun1 hrun2 ⊢
+      simp only [hrun, hrun1, hrun2]
+      rfl
+    · refine ⟨⟨hA3, ⟨hS3, hS2⟩, ⟨.new, Or.inl ⟨_, a2conn⟩⟩, ⟨.new, Or.inr ⟨rfl, _, b2conn⟩⟩,
+        ⟨rfl, htb'⟩, ⟨rfl, htb'⟩⟩, rfl, ⟨w1.a.out, ?_, rfl⟩, ?_⟩
+      · show a2.out = _
+        have : a2.nAbs = w.a.nAbs := by simp [End.nAbs, End.submittedVital, a2sub, a1sub]
+        rw [a2out]
+        simp [World.set, this, gface6, pktH, kindOf]
+      · intro x hx
+        simp only [List.mem_cons, List.not_mem_nil, or_false] at hx
+        subst hx
+        show b2.nAbs ≤ w.a.dAbs + 512
+        have : b2.nAbs = w.b.nAbs := by simp [End.nAbs, End.submittedVital, b2sub, b1sub]
+        rw [this]; exact hwin_ba
+    · show Event.ready ∈ a2.events
+      rw [a2ev]; simp
+
 end Tw.NetSim.P6
